@@ -49,6 +49,7 @@ func runC12(c *Ctx) {
 		c04FlushOrder(c, "C12.5")
 		ruleFlushLoopComplete(c, "C12.7")
 		ruleSizeWithBytes(c, "C12.9")
+		c08SizeGuardOpt(c, "C12.10", false)
 		ruleRawReadOnBuffer(c, "C12.8", "storage.(*btreeNode).decodeLeaf", "storage.(*btreeNode).decodeInternal")
 		sub := NewCtx("C12", c.W)
 		runC15(sub)
@@ -147,8 +148,30 @@ func runC12(c *Ctx) {
 			if !ok {
 				return true
 			}
-			cst := f.namedConst(be.Y)
-			if cst == nil {
+			var csts []*types.Const
+			if cst := f.namedConst(be.Y); cst != nil {
+				csts = append(csts, cst)
+			} else if id, ok := ast.Unparen(be.Y).(*ast.Ident); ok {
+				// a local that holds one of the capacity constants, chosen by the node kind
+				if v, ok := f.ObjOf(id).(*types.Var); ok && !v.IsField() && v.Parent() != v.Pkg().Scope() {
+					all := true
+					for _, as := range f.assignsTo(f.Decl.Body, v) {
+						for i, l := range as.Lhs {
+							if lid, ok := ast.Unparen(l).(*ast.Ident); ok && f.ObjOf(lid) == types.Object(v) && i < len(as.Rhs) && len(as.Lhs) == len(as.Rhs) {
+								if k := f.namedConst(as.Rhs[i]); k != nil {
+									csts = append(csts, k)
+								} else {
+									all = false
+								}
+							}
+						}
+					}
+					if !all {
+						csts = nil
+					}
+				}
+			}
+			if len(csts) == 0 {
 				return true
 			}
 			lenOffsets := false
@@ -164,12 +187,17 @@ func runC12(c *Ctx) {
 			if !lenOffsets {
 				return true
 			}
-			key := f.Name + "|capacity|" + cst.Name()
-			seen[cst.Name()] = true
-			if be.Op == token.GEQ || be.Op == token.EQL {
-				c.OK("C12.2", key, be.Pos(), 1, "node is full when len(offsets) %s %s", be.Op, cst.Name())
-			} else {
-				c.Fail("C12.2", key, be.Pos(), "isFull uses len(offsets) %s %s: a node can grow beyond the capacity the page layout was computed for", be.Op, cst.Name())
+			for _, cst := range csts {
+				key := f.Name + "|capacity|" + cst.Name()
+				if seen[cst.Name()] {
+					continue
+				}
+				seen[cst.Name()] = true
+				if be.Op == token.GEQ || be.Op == token.EQL {
+					c.OK("C12.2", key, be.Pos(), 1, "node is full when len(offsets) %s %s", be.Op, cst.Name())
+				} else {
+					c.Fail("C12.2", key, be.Pos(), "isFull uses len(offsets) %s %s: a node can grow beyond the capacity the page layout was computed for", be.Op, cst.Name())
+				}
 			}
 			return true
 		})
@@ -233,19 +261,60 @@ func runC12(c *Ctx) {
 		}
 		nTrue := 0
 		idx := map[string]int{}
+		// isLeaf computed from the kind byte in one expression: `isLeaf = kind == LeafNode` (also as a literal's field)
+		fromKind := func(e ast.Expr) bool {
+			be, ok := ast.Unparen(e).(*ast.BinaryExpr)
+			if !ok || be.Op != token.EQL {
+				return false
+			}
+			x, y := exprKey(be.X), exprKey(be.Y)
+			return (kinds[x] && y == "LeafNode") || (kinds[y] && x == "LeafNode")
+		}
 		inspectBody(f.Decl.Body, func(n ast.Node) bool {
-			as, ok := n.(*ast.AssignStmt)
-			if !ok || len(as.Lhs) != 1 || len(as.Rhs) != 1 {
+			var val ast.Expr
+			switch y := n.(type) {
+			case *ast.KeyValueExpr:
+				if k, ok := y.Key.(*ast.Ident); ok && k.Name == "isLeaf" {
+					val = y.Value
+				}
+			case *ast.AssignStmt:
+				if len(y.Lhs) == 1 && len(y.Rhs) == 1 {
+					if sel, ok := ast.Unparen(y.Lhs[0]).(*ast.SelectorExpr); ok {
+						if v := fieldVar(f, sel); v != nil && v.Name() == "isLeaf" {
+							val = y.Rhs[0]
+						}
+					}
+				}
+			}
+			if val != nil && fromKind(val) {
+				nTrue++
+				c.OK("C12.3", f.Name+"|dispatch|LeafNode", val.Pos(), 1, "isLeaf is the value of `kind byte == LeafNode`")
+				c.OK("C12.3", f.Name+"|dispatch|InternalNode", val.Pos(), 1, "isLeaf is the value of `kind byte == LeafNode`")
+			}
+			return true
+		})
+		inspectBody(f.Decl.Body, func(n ast.Node) bool {
+			var as ast.Node
+			var rhs ast.Expr
+			switch y := n.(type) {
+			case *ast.KeyValueExpr:
+				// a node built with the flag already set: &btreeNode{isLeaf: true}
+				if k, ok := y.Key.(*ast.Ident); ok && k.Name == "isLeaf" {
+					as, rhs = y, y.Value
+				}
+			case *ast.AssignStmt:
+				if len(y.Lhs) == 1 && len(y.Rhs) == 1 {
+					if sel, ok := ast.Unparen(y.Lhs[0]).(*ast.SelectorExpr); ok {
+						if v := fieldVar(f, sel); v != nil && v.Name() == "isLeaf" {
+							as, rhs = y, y.Rhs[0]
+						}
+					}
+				}
+			}
+			if as == nil || fromKind(rhs) {
 				return true
 			}
-			sel, ok := ast.Unparen(as.Lhs[0]).(*ast.SelectorExpr)
-			if !ok {
-				return true
-			}
-			if v := fieldVar(f, sel); v == nil || v.Name() != "isLeaf" {
-				return true
-			}
-			cv := f.constOf(as.Rhs[0])
+			cv := f.constOf(rhs)
 			loc, located := g.Locate(as)
 			if cv == nil || !located {
 				c.Undecided("C12.3", f.Name+"|dispatch", "isLeaf is stored from a non-constant in fetch")
